@@ -882,7 +882,14 @@ def fmatch_worker(a):
                   "witness": fm_witness(c, files, cmd)})
             shutil.rmtree(wd, ignore_errors=True)
             continue
-        fails, errs = judge_fmatch(c, wd)
+        try:
+            fails, errs = judge_fmatch(c, wd)
+        except Exception as e:
+            import traceback
+            emit({"t": "inconclusive", "what": "fmatch oracle failed on case "
+                  "seed %d: %s" % (cseed, traceback.format_exc()[-600:])})
+            shutil.rmtree(wd, ignore_errors=True)
+            continue
         fam = "fmatch/%s/%s/%dblock%s" % (
             family, "constrained" if c["constrained"] else "plain",
             c["nblocks"], "-replicated" if c["replicate"] else "")
@@ -890,10 +897,11 @@ def fmatch_worker(a):
         evals += 1
         cnt("tables_compared", len(c["interactions"]))
         distinct.add(hashlib.sha1(c["trj_text"].encode()).hexdigest())
-        if errs:
+        tab_errs = [v for n_, v in errs.items() if n_ != "unit_factor"]
+        if tab_errs:
             k = "max_rel_err_e12/" + family
-            counters[k] = max(counters.get(k, 0), int(max(
-                v for n_, v in errs.items() if n_ != "unit_factor") * 1e12))
+            counters[k] = max(counters.get(k, 0),
+                              int(min(max(tab_errs), 1e6) * 1e12))
         for (key, what, det) in fails:
             vcount[key] = vcount.get(key, 0) + 1
             cnt("violations_" + key)
@@ -1031,8 +1039,15 @@ def judge_imc(c, files, regtxt, wd):
             alt[nm] = float(np.linalg.norm(M2 @ xs - r2) /
                             (np.linalg.norm(M2, 2) * np.linalg.norm(xs) +
                              np.linalg.norm(r2) + 1e-300))
-        fails.append(("imc_solve/%s/normal-equations-residual" % fam,
-                      "(A^T A + r I) x + A^T b is not ~0 for the written x",
+        tname = "A read transposed: (A A^T + rI) x = -A b"
+        sub, what = "normal-equations-residual", \
+            "(A^T A + r I) x + A^T b is not ~0 for the written x"
+        if alt[tname] <= 10 * float(tol / scale):
+            # own structural key: the output is the exact solution for the
+            # transposed matrix (matrix file read column-major)
+            sub = "solves-transposed-system"
+            what += "; x solves (A A^T + r I) x = -A b instead"
+        fails.append(("imc_solve/%s/%s" % (fam, sub), what,
                       {"n": n, "r": regtxt, "residual_rel": rel,
                        "tolerance_rel": float(tol / scale),
                        "x_got": xs.tolist()[:6], "x_numpy": xref.tolist()[:6],
@@ -1067,7 +1082,15 @@ def imc_worker(a):
                   "rc": rc, "timed_out": to, "err": err[-6000:], "witness": wit})
             shutil.rmtree(wd, ignore_errors=True)
             continue
-        fails, rel = judge_imc(c, files, regtxt, wd)
+        try:
+            fails, rel = judge_imc(c, files, regtxt, wd)
+        except Exception as e:
+            import traceback
+            emit({"t": "violation", "key": "imc_solve/output-unreadable",
+                  "what": "output tables could not be read/compared: %s" %
+                  traceback.format_exc()[-600:], "witness": wit})
+            shutil.rmtree(wd, ignore_errors=True)
+            continue
         fam = "imc_solve/%s/%d-interactions" % (
             "symmetric-A" if c["sym"] else "nonsymmetric-A", len(c["names"]))
         fams[fam] = fams.get(fam, 0) + 1
@@ -1100,6 +1123,12 @@ def imc_worker(a):
 
 def replay(path, a):
     w = json.load(open(path))["witness"]
+    if "files" not in w and "case" in w:      # sanitizer / crash witness
+        w = w["case"]
+    if "files" not in w:
+        print("library-level witness (qrsolve): the matrices A, b, B are in "
+              "the witness file; re-run harness c06 with the recorded seed")
+        return 2
     wd = os.path.join(a["scratch"], "replay")
     shutil.rmtree(wd, ignore_errors=True)
     os.makedirs(wd)
